@@ -4,6 +4,7 @@ CONSTANTS
   EnvVars <- NoEnv
   QueryKinds <- NoEnv
   BlockChoices <- NoBlocks
+  Versions <- GateVersions
   Sel = "full"
 INIT GInit
 NEXT GNextC
